@@ -39,14 +39,16 @@ Kernels == {
     K("input3",  << "10 INPUT A:INPUT B:PRINT A;B", "20 IF 0 THEN INPUT A$ ELSE INPUT B$", "30 PRINT A$;B$;\"!\"" >>),
     K("warnmistype", << "10 A(1)=\"X\"", "20 DIM A(20):A(15)=3:PRINT A(15)" >>),
     K("warnmistype2", << "10 N$(2)=5" >>),
+    K("datamid", << "10 PRINT 1", "20 DATA 1,2", "30 DATA 3:DATA 4", "40 READ A,B,C:PRINT A+B+C", "50 DATA 5", "60 REM r", "70 DATA 6" >>),
+    K("inputfail", << "10 K=0:INPUT A(K-1)", "20 PRINT \"not reached\"", "30 INPUT B$:PRINT B$" >>),
     K("input2",  << "10 IF 1 THEN INPUT X ELSE PRINT \"NO\"", "20 GOSUB 100:PRINT X;S$", "30 IF 0 THEN PRINT 1 ELSE INPUT Q(2):PRINT Q(2)", "40 END",
                     "100 INPUT S$:RETURN" >>)
 }
 KernelByName(n) == CHOOSE k \in Kernels : k.name = n
 
 \* what the host may type at the prompt
-Inspections == { B("PRINT X;I"), B("PRINT 1/0"), B("LIST") }
-Probes == { B("RETURN"), B("NEXT I"), B("READ Q"), B("PRINT F(1)"), B("GOTO 20"), B("X=7") }
+Inspections == { B("PRINT X;I"), B("PRINT 1/0"), B("LIST"), B("NEXT Q9") }      \* NEXT Q9 fails (no such loop) and must disturb nothing
+Probes == { B("RETURN"), B("NEXT I"), B("READ Q"), B("PRINT F(1)"), B("GOTO 20"), B("GOTO 30"), B("X=7") }
 Edits == { B("15 REM"), B("10"), B("20 %"), B("100 RETURN") }
 Commands0 == { B("RUN"), B("CONT") }
 
@@ -56,7 +58,7 @@ ReplySet == { B("5"), B("abc"), B("1,2"), B("") }
 RunOnly == { B("RUN") }
 BreakLines == Inspections \cup Commands0
 EditLines == Edits \cup Probes \cup Commands0 \cup { B("LIST") }
-InputKernels == {k \in Kernels : k.name \in {"input", "input2", "input3", "stop"}}
+InputKernels == {k \in Kernels : k.name \in {"input", "input2", "input3", "inputfail", "stop"}}
 
 \* Kernels that drive the caps of C16: frames by GOSUB and by function recursion, 33 FOR
 \* variables, a FOR re-entered by GOTO 40 times, DIM at and beyond 10000 cells, implicit
